@@ -14,9 +14,13 @@ def show(n):
     try: return json.loads(subprocess.check_output(['git','show',':%d:known_findings.json'%n]))
     except Exception: return []
 out, seen = [], set()
+idx = {}
 for e in show(2)+show(3):
     k = e.get('id') or json.dumps(e, sort_keys=True)
-    if k not in seen: seen.add(k); out.append(e)
+    if k not in seen:
+        seen.add(k); idx[k] = len(out); out.append(e)
+    elif e.get('status') == 'fixed' and out[idx[k]].get('status') != 'fixed':
+        out[idx[k]] = e      # a repair recorded on either side wins over the older "known" entry
 json.dump(out, open('known_findings.json','w'), indent=1)
 PY
       git add known_findings.json
